@@ -1,6 +1,8 @@
 #!/bin/bash
 # Determinism gate: every harness, N seeds x3 executions in separate processes at GOMAXPROCS 1/4/16.
 cd "$(dirname "$0")/.."
+export VERIF_DIR=$PWD
+[ -x bin/simctl ] || ./setup.sh >/dev/null
 N=${1:-80}; bad=0
 for i in C01 C02 C04 C06 C07 C08 C09 C10 C11 C12 C14 C15 C16 C17 C18 C19; do
   r=$(./bin/simctl selftest $i $N 2>&1 | tail -1)
